@@ -218,14 +218,62 @@ def exec_and_validate(domain, scripts, workdir, module, cfg, events_per_chunk=15
     def work(ix):
         sp = os.path.join(workdir, "s%03d.ndjson" % ix)
         tp = os.path.join(workdir, "t%03d.ndjson" % ix)
-        with open(sp, "w") as f:
-            for s in chunks[ix]:
-                f.write(json.dumps(s, separators=(",", ":")) + "\n")
-        p = sh([BIN, domain, sp, tp], timeout=900)
-        if p.returncode != 0:
-            raise ToolError("harness failed on %s (exit %d):\n%s" % (sp, p.returncode, p.stdout[-2000:]))
-        n, viol = validate_trace(tp, module, cfg)
-        return n, viol, tp
+        todo = list(chunks[ix])
+        crashes = []
+        part = 0
+        while True:
+            tpp = tp if part == 0 else tp + ".part%d" % part
+            with open(sp, "w") as f:
+                for s in todo:
+                    f.write(json.dumps(s, separators=(",", ":")) + "\n")
+            p = sh([BIN, domain, sp, tpp], timeout=1200)
+            if p.returncode == 0:
+                break
+            # the code under test brought the process down (abort / segfault): find the script
+            cur = None
+            try:
+                cur = json.load(open(tpp + ".cur"))
+            except Exception:
+                pass
+            idx = next((i for i, s in enumerate(todo) if s.get("tid") == cur), None)
+            if idx is None or len(crashes) >= 5:
+                raise ToolError("harness failed on %s (exit %d):\n%s" % (sp, p.returncode, p.stdout[-2000:]))
+            crashes.append({"tid": cur, "line": 0, "p": "*", "m": "the implementation crashed the process while executing this script",
+                            "d": "exit status %d; %s" % (p.returncode, p.stdout[-300:].replace("\n", " "))})
+            # keep the complete scripts recorded before the crash, continue after the crashed one
+            keep = []
+            with open(tpp) as f:
+                for line in f:
+                    if line.endswith("\n"):
+                        keep.append(line)
+            # drop the (incomplete) events of the crashed script
+            cut = len(keep)
+            for i in range(len(keep) - 1, -1, -1):
+                try:
+                    e = json.loads(keep[i])
+                except Exception:
+                    cut = i
+                    continue
+                t = e.get("cfg", {}).get("tid") if e.get("op") == "Reset" else e.get("tid")
+                if e.get("op") == "Reset" or "tid" in e:
+                    if t == cur:
+                        cut = i
+                    break
+            with open(tpp, "w") as f:
+                f.writelines(keep[:cut])
+            todo = todo[idx + 1:]
+            part += 1
+            if not todo:
+                break
+        # concatenate the parts
+        if part > 0:
+            with open(tp, "a") as out:
+                for k in range(1, part + 1):
+                    pp = tp + ".part%d" % k
+                    if os.path.exists(pp):
+                        out.write(open(pp).read())
+        n, viol = validate_trace(tp, module, cfg) if os.path.getsize(tp) > 0 else (0, [])
+        return n, viol + crashes, tp
 
     n_events = 0
     viol = []
